@@ -48,7 +48,8 @@ void violating_read(LPrt p, unsigned kind, uint64_t a, Stats& st) {
 	size_t ii = a % p.images.size();
 	switch (kind % 6) {
 	case 0: p.images[ii].paletteIndex = uint16_t(p.palettes.size() + a % 3); what = "palette index >= palette count"; break;
-	case 1: p.images[ii].scanLine += (a & 1) ? 4 : uint32_t(-4); if (p.images[ii].scanLine == ((p.images[ii].width + 3) & ~3u)) p.images[ii].scanLine += 8; what = "scan line is not the width rounded up to four"; break;
+	case 1: { static const int32_t d[] = {4, -4, 1, 2, 3, -1, -2, -3, 5, 8, -8, 256};   // incl. values that agree with the rule once the low two bits are dropped
+		p.images[ii].scanLine += uint32_t(d[(a >> 1) % 12]); if (p.images[ii].scanLine == ((p.images[ii].width + 3) & ~3u)) p.images[ii].scanLine += 8; what = "scan line is not the width rounded up to four"; break; }
 	case 2: p.images[ii].width = 0xFFFFFFFDu + uint32_t(a % 3); p.images[ii].scanLine = 0; what = "width near 2^32 with a wrapped scan line of 0"; break;
 	case 3: { p.overrideTotals = true; uint32_t fr = 0, ly = 0; for (auto& an : p.anims) { fr += uint32_t(an.frames.size()); for (auto& f : an.frames) ly += uint32_t(f.layers.size()); } p.hdrAnim = uint32_t(p.anims.size()); p.hdrFrames = fr + ((a & 1) ? 1 : uint32_t(-1)); p.hdrLayers = ly; what = "header frame total off by one"; break; }
 	case 4: { p.overrideTotals = true; uint32_t fr = 0, ly = 0; for (auto& an : p.anims) { fr += uint32_t(an.frames.size()); for (auto& f : an.frames) ly += uint32_t(f.layers.size()); } p.hdrAnim = uint32_t(p.anims.size()); p.hdrFrames = fr; p.hdrLayers = ly + ((a & 1) ? 1 : uint32_t(-1)); what = "header layer total off by one"; break; }
@@ -66,16 +67,28 @@ void violating_write(const LPrt& p, unsigned kind, uint64_t a, Stats& st) {
 	if (art.palettes.empty()) art.palettes.resize(1);
 	if (art.imageMetas.empty()) { ImageMeta m{}; m.scanLineByteWidth = 8; m.width = 5; art.imageMetas.push_back(m); }
 	size_t ii = a % art.imageMetas.size();
-	switch (kind % 4) {
+	switch (kind % 5) {
 	case 0: art.imageMetas[ii].paletteIndex = uint16_t(art.palettes.size()); what = "palette index == palette count"; break;
-	case 1: art.imageMetas[ii].scanLineByteWidth += 4; what = "wrong scan line"; break;
+	case 1: { static const int32_t d[] = {4, 1, 2, 3, -1, -3, -4, 7}; uint32_t right = (art.imageMetas[ii].width + 3) & ~3u; art.imageMetas[ii].scanLineByteWidth = right + uint32_t(d[(a >> 2) % 8]); what = "wrong scan line"; break; }
+	case 4: {   // TWO frames whose count/list mismatches cancel in any file-wide total: one list a layer longer, another a layer shorter (or its count one higher)
+		if (art.animations.empty()) art.animations.resize(1);
+		size_t a2 = (a & 8) && art.animations.size() > 1 ? art.animations.size() - 1 : 0;
+		while (art.animations[a2].frames.empty() || art.animations[0].frames.size() + (a2 ? art.animations[a2].frames.size() : 0) < 2) { Animation::Frame f{}; art.animations[a2].frames.push_back(f); }
+		auto& f1 = art.animations[0].frames.empty() ? art.animations[a2].frames[0] : art.animations[0].frames[0]; auto& f2 = art.animations[a2].frames.back();
+		V_CHECK(&f1 != &f2, "harness: two distinct frames");
+		unsigned k = 1 + unsigned(a >> 4) % 2;
+		if (f1.layers.size() + k > 127) break;
+		f1.layers.resize(f1.layers.size() + k);
+		if (f2.layers.size() >= k) f2.layers.resize(f2.layers.size() - k); else if (f2.layerMetadata.count + k <= 127) f2.layerMetadata.count = uint8_t(f2.layerMetadata.count + k); else break;
+		what = "two frames with cancelling count/list mismatches"; break; }
 	case 2: art.imageMetas[ii].width = 0xFFFFFFFEu; art.imageMetas[ii].scanLineByteWidth = 0; what = "width 0xFFFFFFFE with scan line 0"; break;
 	default: { if (art.animations.empty()) art.animations.resize(1); if (art.animations[0].frames.empty()) { Animation::Frame f{}; art.animations[0].frames.push_back(f); } auto& f = art.animations[0].frames[0]; f.layers.resize(f.layers.size() + ((a & 4) ? 128u << (a % 3) : 1 + a % 2)); what = "layer list longer than the frame's count"; break; }
 	}
+	if (!*what) return;   // no violation could be planted in this structure
 	Stream::DynamicMemoryWriter w;
 	Out o = guarded([&] { art.Write(w); });
 	V_CHECK(o == Out::Err, "ArtFile::Write accepted a structure violating a cross-field rule: " << what);
-	st.cls(std::string("violating_write:") + what); st.nt(hmix(kind % 4, a % 97) ^ 0xB2);
+	st.cls(std::string("violating_write:") + what); st.nt(hmix(kind % 5, a % 97) ^ 0xB2);
 }
 } // namespace
 
@@ -84,7 +97,7 @@ void run_case(Tape& t, Stats& st) {
 	LPrt p = prtgen::gen_lprt(t);
 	if (st.want_sample()) st.sample("{\"mode\":" + std::to_string(mode) + ",\"prt\":" + prtgen::render(p) + "}");
 	if (mode == 0) violating_read(p, unsigned(t.below(6)), t.u16(), st);
-	else if (mode == 1) violating_write(p, unsigned(t.below(4)), t.u16(), st);
+	else if (mode == 1) violating_write(p, unsigned(t.below(5)), t.u16(), st);
 	else valid_case(p, st);
 }
 
